@@ -20,6 +20,8 @@ type c15Case struct {
 	Dataset    int
 	GOMAXPROCS int
 	Choices    []int
+	// Cross: compare the default schedule's bytes under GOMAXPROCS with those under GOMAXPROCS=1
+	Cross bool `json:",omitempty"`
 }
 
 func c15Replay(raw json.RawMessage) string {
@@ -31,6 +33,14 @@ func c15Replay(raw json.RawMessage) string {
 	old := runtime.GOMAXPROCS(cs.GOMAXPROCS)
 	defer runtime.GOMAXPROCS(old)
 	ref := c15Reference(ds)
+	if cs.Cross {
+		runtime.GOMAXPROCS(1)
+		ref1 := c15Reference(ds)
+		if ref1 != ref {
+			return "GOMAXPROCS=1 vs GOMAXPROCS=" + strconv.Itoa(cs.GOMAXPROCS) + ": " + c15Diff(ref1, ref)
+		}
+		return ""
+	}
 	var out string
 	mc.ResetGlobals()
 	x := mc.Explore1(cs.Choices, 1<<20, func() { out = c15Body(ds) })
@@ -124,7 +134,7 @@ func c15Explore(c *mc.Check, bound int) {
 	if nshards == 0 {
 		nshards = 1
 	}
-	f := c.Family("schedules", fmt.Sprintf("for each of %d datasets (2×2 cells with a residue warning; two tables with an exact-assumption unit; three columns with a missing cell; one column of five rows with irregular values) × GOMAXPROCS ∈ {1,2,3} (it sizes the semaphore): iterative-context-bounding DFS over the mechanically instrumented real Builder.ToTables + ToText + ToCSV: every interleaving of the cell goroutines, the column goroutines and the main goroutine at WaitGroup/Once/sync.Map/channel operations, and every order in which each range over a map delivers its keys, with at most %d deviations (a preemption of a goroutine that could have continued, or a map key picked out of canonical order); caches cold at the start of every execution; oracle: text, CSV and warning bytes identical to the default schedule's, no deadlock, no panic; the root schedule is replayed twice and must reproduce its decisions and bytes; non-trivial = executions with ≥1 deviation", len(c15Datasets), bound), c15Replay)
+	f := c.Family("schedules", fmt.Sprintf("for each of %d datasets (2×2 cells with a residue warning; two tables with an exact-assumption unit; three columns with a missing cell; one column of five rows with irregular values) × GOMAXPROCS ∈ {1,2,3} (it sizes the semaphore): iterative-context-bounding DFS over the mechanically instrumented real Builder.ToTables + ToText + ToCSV: every interleaving of the cell goroutines, the column goroutines and the main goroutine at WaitGroup/Once/sync.Map/channel operations, and every order in which each range over a map delivers its keys, with at most %d deviations (a preemption of a goroutine that could have continued, or a map key picked out of canonical order); caches cold at the start of every execution; oracle: text, CSV and warning bytes identical to the default schedule's — which is itself identical for every GOMAXPROCS —, no deadlock, no panic; the root schedule is replayed twice and must reproduce its decisions and bytes; non-trivial = executions with ≥1 deviation", len(c15Datasets), bound), c15Replay)
 	if c.Replaying() {
 		return
 	}
@@ -136,9 +146,16 @@ func c15Explore(c *mc.Check, bound int) {
 	traces := map[string]bool{}
 	var maxPoints int
 	for di, ds := range c15Datasets {
+		var ref1 string
 		for _, gmp := range []int{1, 2, 3} {
 			old := runtime.GOMAXPROCS(gmp)
 			ref := c15Reference(ds)
+			// the output is the same function of the input for every GOMAXPROCS
+			if gmp == 1 {
+				ref1 = ref
+			} else if ref != ref1 && shard == 0 {
+				c.Fail(f, "gomaxprocs", c15Case{Dataset: di, GOMAXPROCS: gmp, Cross: true}, fmt.Sprintf("dataset %s: GOMAXPROCS=1 vs GOMAXPROCS=%d: %s", ds.Name, gmp, c15Diff(ref1, ref)))
+			}
 			// replay determinism of the root schedule
 			var out2 string
 			mc.ResetGlobals()
@@ -171,7 +188,7 @@ func c15Explore(c *mc.Check, bound int) {
 					return ""
 				},
 				OnFail: func(ch []int, x *mc.Execution, msg string) {
-					c.Fail(f, "schedule", c15Case{di, gmp, ch}, fmt.Sprintf("dataset %s GOMAXPROCS=%d: %s", ds.Name, gmp, msg))
+					c.Fail(f, "schedule", c15Case{Dataset: di, GOMAXPROCS: gmp, Choices: ch}, fmt.Sprintf("dataset %s GOMAXPROCS=%d: %s", ds.Name, gmp, msg))
 				}}
 			e.Run()
 			runtime.GOMAXPROCS(old)
@@ -197,7 +214,7 @@ func c15Explore(c *mc.Check, bound int) {
 	f.Set("distinct_goroutine_completion_orders", len(traces))
 	f.Set("max_decisions_per_execution", maxPoints)
 	f.Set("registered_global_caches", mc.Globals())
-	f.Sample(c15Case{0, 2, []int{0, 0, 1}})
+	f.Sample(c15Case{Dataset: 0, GOMAXPROCS: 2, Choices: []int{0, 0, 1}})
 	f.Done()
 }
 
